@@ -27,7 +27,11 @@ STUBS = {
     # anyhow captures a backtrace (getenv): disabled
     "backtrace": [("std::backtrace::Backtrace::capture", "crate::env::backtrace_disabled"),
                   ("n0_error::backtrace_enabled", "crate::env::n0_backtrace_enabled"),
-                  ("<anyhow::Error as core::ops::Drop>::drop", "crate::env::anyhow_drop")],
+                  ("<anyhow::Error as core::ops::Drop>::drop", "crate::env::anyhow_drop"),
+                  ("<anyhow::Error as core::fmt::Debug>::fmt", "crate::env::anyhow_fmt"),
+                  ("<anyhow::Error as core::fmt::Display>::fmt", "crate::env::anyhow_fmt"),
+                  ("<std::backtrace::Backtrace as core::fmt::Debug>::fmt", "crate::env::backtrace_fmt"),
+                  ("<std::backtrace::Backtrace as core::fmt::Display>::fmt", "crate::env::backtrace_fmt")],
     # ideal signature scheme (DESIGN.md §3.3): ed25519 trusted, glue verified
     "crypto": [
         ("iroh::PublicKey::from_bytes", "iroh_docs::verif_incrate::crypto::pk_from_bytes"),
@@ -39,6 +43,10 @@ STUBS = {
     # wall clocks: thread_local / clock_gettime
     "time": [("tokio::time::Instant::now", "crate::env::tokio_instant_now"),
              ("std::time::SystemTime::now", "crate::env::system_time_now")],
+    # error messages built with format! (not the subject of any property)
+    "fmt": [("alloc::fmt::format", "crate::env::fmt_format")],
+    # HashMap/HashSet seeds
+    "hashseed": [("std::hash::RandomState::new", "crate::env::random_state_new")],
     # blake3::Hash equality is constant_time_eq_32 (inline asm): plain comparison
     "cteq": [("constant_time_eq::constant_time_eq_32", "crate::env::ct_eq_32")],
 }
@@ -69,11 +77,11 @@ def bounds_family(fam, body, props, insts):
 
 # (prefix len, key len)
 bounds_family("bounds_author_prefix", "bounds_author_prefix", ["C02", "C05"],
-              [(0, 1, "quick"), (1, 1, "quick"), (1, 2, "quick"), (2, 1, "quick"), (2, 2, "quick"), (2, 3, "thorough"), (3, 2, "thorough")])
+              [(0, 1, "quick"), (1, 1, "quick"), (1, 2, "quick"), (2, 1, "quick"), (2, 2, "quick"), (3, 1, "quick"), (2, 3, "thorough"), (3, 2, "thorough")])
 bounds_family("bounds_author_key", "bounds_author_key", ["C05"], [(1, 1, "quick"), (1, 2, "quick"), (2, 2, "thorough")])
 # (candidate key len, bound key len)
 bounds_family("bounds_namespace", "bounds_namespace", ["C08", "C16", "C05"], [(1, 1, "quick"), (0, 1, "quick"), (1, 0, "quick"), (2, 1, "thorough")])
-bounds_family("bounds_bykey", "bounds_bykey", ["C05", "C16"], [(0, 1, "quick"), (1, 1, "quick"), (1, 2, "quick"), (2, 1, "quick"), (2, 2, "thorough")])
+bounds_family("bounds_bykey", "bounds_bykey", ["C05", "C16"], [(0, 1, "quick"), (1, 1, "quick"), (1, 2, "quick"), (2, 1, "quick"), (3, 1, "quick"), (2, 2, "thorough")])
 
 # =============================================================================================
 # generic ranger code over the light instantiation L (E1): C02 put law
@@ -81,6 +89,10 @@ bounds_family("bounds_bykey", "bounds_bykey", ["C05", "C16"], [(0, 1, "quick"), 
 h("put_step_n3", "ranger_l::put_step::<S, 3>", ["C02", "C01"], "quick", unwind=4, family="put_step")
 h("put_step_n4", "ranger_l::put_step::<S, 4>", ["C02", "C01"], "quick", unwind=5, family="put_step")
 h("put_commute_n4", "ranger_l::put_commute::<S, 4>", ["C02", "C04"], "quick", unwind=5, family="put_commute")
+PM_STUBS = DEFAULT_STUBS + ["cteq"]
+h("pm_item_step_n3_v1", "ranger_l::pm_item_step::<S, 3, 1>", ["C01", "C03", "C12"], "quick", unwind=5, stubs=PM_STUBS, family="pm_item_step", cap=1800, mem_gb=24)
+h("pm_item_step_n4_v2", "ranger_l::pm_item_step::<S, 4, 2>", ["C01", "C03", "C12"], "thorough", unwind=6, stubs=PM_STUBS, family="pm_item_step", cap=3600, mem_gb=24)
+h("pm_init_and_silence_n2", "ranger_l::pm_init_and_silence::<S, 2>", ["C01"], "quick", unwind=4, unwindset={r"BitXorAssign>::bitxor_assign\.0": 34, r"^memcmp\.0$": 34}, stubs=PM_STUBS, family="pm_init_and_silence", cap=1800, mem_gb=24)
 h("put_commute_n5", "ranger_l::put_commute::<S, 5>", ["C02", "C04"], "thorough", unwind=6, family="put_commute")
 
 # =============================================================================================
@@ -127,10 +139,45 @@ h("c11_scheduler_k4", "engine_state::c11_scheduler::<S, 4>", ["C11"], "thorough"
   stubs=C11_STUBS, family="c11_scheduler", mem_gb=24)
 
 # =============================================================================================
+# public-item kernels (E1): C15 policies, C13 heads, C09 decoders
+# =============================================================================================
+K_STUBS = DEFAULT_STUBS + ["cteq", "fmt"]
+for f1, f2, k, tier in [(1, 0, 2, "quick"), (2, 1, 2, "quick"), (1, 2, 3, "thorough"), (0, 0, 0, "quick")]:
+    h("policy_matches_%d_%d_%d" % (f1, f2, k), "kernels::policy_matches::<S, %d, %d, %d>" % (f1, f2, k), ["C15", "C12"], tier,
+      unwind=4, unwindset={r"^memcmp\.0$": 5}, stubs=DEFAULT_STUBS + ["cteq"], family="policy_matches")
+for f, tier in [(0, "quick"), (1, "quick"), (2, "thorough")]:
+    h("filter_text_roundtrip_%d" % f, "kernels::filter_text_roundtrip::<S, %d>" % f, ["C15", "C09"], tier,
+      unwind=16, stubs=DEFAULT_STUBS, family="filter_text_roundtrip", cap=1200)
+for n, tier in [(6, "thorough"), (9, "thorough")]:
+    h("filter_from_str_total_%d" % n, "kernels::filter_from_str_total::<S, %d>" % n, ["C15", "C09"], tier,
+      unwind=16, stubs=DEFAULT_STUBS, family="filter_from_str_total", cap=1800)
+HEADS_UW = {r"^memcmp\.0$": 34}
+h("heads_news", "kernels::heads_news::<S>", ["C13"], "quick", unwind=5, unwindset=HEADS_UW, stubs=DEFAULT_STUBS, cap=1500, mem_gb=20)
+h("heads_encode_roundtrip_nolimit", "kernels::heads_encode_roundtrip::<S, false>", ["C13", "C09"], "quick", unwind=12, unwindset=HEADS_UW,
+  stubs=DEFAULT_STUBS, family="heads_encode_roundtrip", cap=1500, mem_gb=20)
+h("heads_encode_roundtrip_limit", "kernels::heads_encode_roundtrip::<S, true>", ["C13", "C09"], "thorough", unwind=12, unwindset=HEADS_UW,
+  stubs=DEFAULT_STUBS, family="heads_encode_roundtrip", cap=3000, mem_gb=20)
+for n, tier in [(3, "thorough"), (12, "thorough")]:
+    h("heads_decode_total_%d" % n, "kernels::heads_decode_total::<S, %d>" % n, ["C09", "C13"], tier, unwind=14, unwindset=HEADS_UW,
+      stubs=DEFAULT_STUBS, family="heads_decode_total", cap=1800, mem_gb=20)
+
+h("open_replicas_step", "actor::open_replicas_step::<S>", ["C14"], "quick", unwind=6, unwindset={r"^memcmp\.0$": 34},
+  stubs=DEFAULT_STUBS + ["hashseed", "time"], cap=1800, mem_gb=24)
+
+# =============================================================================================
 # E2: real storage layer over the redb model
 # =============================================================================================
-E2_STUBS = DEFAULT_STUBS + ["time", "cteq"]
-h("e2_probe", "store_fs::e2_probe::<S>", ["C02"], "thorough", unwind=7, unwindset={r"^memcmp\.0$": 70}, stubs=E2_STUBS, family="e2_probe", mem_gb=24)
+E2_STUBS = DEFAULT_STUBS + ["time", "cteq", "crypto", "hashseed"]
+UW_E2 = {r"^memcmp\.0$": 36, r"redb::State::find": 10, r"redb::TableNames": 10, r"redb::name_id": 24, r"bounds::increment_by_one\.0": 34,
+         r"bounds::prefix_successor\.0": 5,
+         # run_migration derives a log name from type_name::<F>() with str::split("::") (constant ~70-char string)
+         r"str::pattern::": 80, r"str::iter::": 80, r"memchr": 80}
+h("e2_probe", "store_fs::e2_probe::<S>", ["C02"], "thorough", unwind=6, unwindset=UW_E2, stubs=E2_STUBS, family="e2_probe", mem_gb=24, cap=900)
+h("e2_mem", "store_fs::e2_mem::<S>", ["C02"], "thorough", unwind=6, unwindset=UW_E2, stubs=E2_STUBS, family="e2_probe", mem_gb=24, cap=900)
+# (K1, K2, KE): indices into MENU = ["", "a", "a\xff", "a\xff\x00", "b", "ab", "\xff", "\xff\xff"]
+for k1, k2, ke, tier in [(1, 5, 1, "quick"), (0, 1, 5, "quick"), (2, 4, 2, "quick"), (3, 2, 1, "thorough")]:
+    h("e2_put_%d_%d_%d" % (k1, k2, ke), "store_fs::e2_put::<S, %d, %d, %d>" % (k1, k2, ke), ["C02", "C08"], tier, unwind=6,
+      unwindset=UW_E2, stubs=E2_STUBS, family="e2_put", mem_gb=24, cap=1200)
 
 COMMON_ASSUMPTIONS = [
     "bytes::Bytes drop/clone replaced by no-op/deep copy (allocation lifetime abstracted; memory safety of `bytes` not claimed)",
@@ -138,8 +185,92 @@ COMMON_ASSUMPTIONS = [
     "Kani models the dev profile (overflow checks and debug assertions on); native replay runs dev and (thorough) release",
 ]
 
+KANI = "Kani 0.68 / CBMC 6.11 (cadical), unwinding assertions on, one cargo-kani process per harness; counterexamples re-run natively by /verif/replay"
+
+META["C01"] = dict(
+    engine=KANI,
+    functions=["ranger::Store::put (generic, over the light instantiation L)", "ranger::Store::process_message (item parts; L)",
+               "ranger::Message::init", "sync::Record::cmp", "sync::RecordIdentifier::cmp/new/accessors", "sync::Entry::encode"],
+    bounds="L: keys <= 2 bytes over all byte values, values u8, stores <= 3-4 entries, one message part with <= 1-2 values; S: keys <= 2 bytes, all other fields full width",
+    outside="whole sessions (decided step-wise: one-step lemmas + induction on paper), fingerprint parts with recursion (split) — see DESIGN.md, file-backed store, sets larger than the bound",
+    assumptions=COMMON_ASSUMPTIONS + ["ideal fingerprint on the L domain (one bit per element): no collisions inside the bound",
+                                       "futures-buffered FuturesOrdered replaced by a sequential-polling model (same output order)"],
+)
+META["C03"] = dict(
+    engine=KANI,
+    functions=["sync::validate_entry", "sync::SignedEntry::verify", "sync::EntrySignature::verify", "sync::Entry::{encode,to_vec,validate_empty}",
+               "keys::{NamespaceId,AuthorId}::public_key", "store::PublicKeyStore::{namespace_key,author_key}",
+               "ranger::Store::process_message validate_cb gating (L)"],
+    bounds="key length of the honest entry and of the received entry in {0,1,2}; every other field, both signatures, the clock and the expected namespace fully symbolic; now < 2^62",
+    outside="ed25519 itself (ideal signature scheme stub); the validate closure inside Replica::sync_process_message (async closure: not compilable by Kani; E3)",
+    assumptions=COMMON_ASSUMPTIONS + ["iroh::PublicKey::{from_bytes,verify} replaced by an ideal signature scheme: verify succeeds iff (key, message, signature) is an honestly produced row; from_bytes fails exactly on the harness-chosen non-curve id",
+                                       "n0_error call-site capture disabled"],
+)
+META["C07"] = dict(
+    engine=KANI,
+    functions=["sync::Capability::{merge,raw,from_raw,id,kind,secret_key}", "keys::NamespaceSecret::{from_bytes,to_bytes,id,public_key}"],
+    bounds="all 32-byte ids/secrets fully symbolic; one merge step from an arbitrary pair of capabilities (sequences by induction on the one-step law)",
+    outside="store/actor propagation of the merged capability (E2/E3), histories",
+    assumptions=COMMON_ASSUMPTIONS + ["iroh::SecretKey::{from_bytes,to_bytes,public} stubbed as a unit: public key = injective function of the secret (bitwise complement)"],
+)
+META["C11"] = dict(
+    engine=KANI,
+    functions=["engine::state::PeerState::{start_connect,accept_request,finish,abort_connect,set_sync_running}", "engine::state::expected_sync_direction",
+               "engine::state::NamespaceStates::{accept_request,start_connect,is_syncing}"],
+    bounds="two nodes with symbolic ids in either byte order, symbolic dial reasons; scenario families with concrete control flow: single dial (lost/accepted, either finish order), simultaneous dial (32 flag combinations: losses, early ends), re-dial racing the acceptor's bookkeeping, sync reports during a session (<= 2 per side), request for a document that is not syncing",
+    outside="more than two overlapping dials per direction, more than two nodes, timers, the real network; the live.rs handler glue is mirrored in the harness (dial_ends) and not itself executed (async; E3)",
+    assumptions=COMMON_ASSUMPTIONS + ["tokio Instant::now / SystemTime::now replaced by constants (only stored)",
+                                       "PeerState starts Idle with a previous session result stored (a reachable state)"],
+)
+META["C13"] = dict(
+    engine=KANI,
+    functions=["heads::AuthorHeads::{insert,get,len,has_news_for,encode,decode}"],
+    bounds="two authors per side (ids symbolic in one byte), u64 timestamps; size limit 0..99",
+    outside="stored heads (entry_put / migrations: E2), more than two authors",
+    assumptions=COMMON_ASSUMPTIONS,
+)
+META["C14"] = dict(
+    engine=KANI,
+    functions=["actor::OpenReplicas::{open_with,close,get_mut,is_open,ensure_open}"],
+    bounds="one step from an arbitrary state of one document (closed, or open with 1..3 handles, sync on/off); a second document is watched",
+    outside="reply ordering, concurrent clients, shutdown hand-back, the per-action gating inside on_replica_action (async closures; E3)",
+    assumptions=COMMON_ASSUMPTIONS + ["HashMap seeds fixed (RandomState::new stub)"],
+)
+META["C15"] = dict(
+    engine=KANI,
+    functions=["store::DownloadPolicy::matches", "store::FilterKind::{matches,fmt,from_str}"],
+    bounds="<= 2 filters of <= 2 bytes, keys <= 3 bytes, all bytes symbolic (non-UTF-8 included); text round trip for filter bytes <= 1-2",
+    outside="persistence of the policy (E2), longer filters/keys",
+    assumptions=COMMON_ASSUMPTIONS,
+)
+META["C09"] = dict(
+    engine=KANI,
+    functions=["sync::Entry::encode", "sync::Capability::{raw,from_raw}", "heads::AuthorHeads::{encode,decode}", "store::FilterKind::{fmt,from_str}"],
+    bounds="see the individual kernels: keys <= 2 bytes, heads of two authors, arbitrary decoder input of 3 and 12 bytes",
+    outside="round trip of full protocol messages carrying signed entries, tickets, pinned snapshots (DESIGN.md §6)",
+    assumptions=COMMON_ASSUMPTIONS,
+)
+for _p in ("C05", "C08", "C16"):
+    META[_p] = dict(
+        engine=KANI,
+        functions=["store::fs::bounds::RecordsBounds::{author_key,author_prefix,namespace,from_start,to_end}", "store::fs::bounds::ByKeyBounds::{new,namespace}",
+                   "store::fs::bounds::{increment_by_one,prefix_successor}"],
+        bounds="prefix/filter key length 0..2, candidate key length 0..3, 32-byte ids: fill byte + 2 free tail bytes (quick) / all bytes free (thorough)",
+        outside="the redb range scans themselves (E2 over the redb model), longer keys",
+        assumptions=COMMON_ASSUMPTIONS,
+    )
+META["C12"] = dict(
+    engine=KANI,
+    functions=["ranger::Store::process_message on_insert contract (L)", "store::DownloadPolicy::matches"],
+    bounds="see C01/C15",
+    outside="Subscribers::send (async closures), the event construction closure in sync_process_message (E3), actor acknowledgement order",
+    assumptions=COMMON_ASSUMPTIONS,
+)
+
 META["C02"] = dict(
-    functions=["store::fs::bounds::RecordsBounds::{author_prefix,author_key,as_ref}", "store::fs::bounds::increment_by_one",
+    engine=KANI,
+    functions=["ranger::Store::put (generic, L: one-step law from an arbitrary state, invariant preservation, commutativity, idempotence)",
+               "store::fs::StoreInstance::{put,prefixes_of,remove_prefix_filtered,entry_put} over the redb model (E2)","store::fs::bounds::RecordsBounds::{author_prefix,author_key,as_ref}", "store::fs::bounds::increment_by_one",
                "<RecordsBounds as RangeBounds<RecordsIdOwned>>::contains"],
     bounds="prefix length 0..2, candidate key length 1..3 (one harness instance per length pair); namespace/author ids: all 32 bytes symbolic",
     outside="longer prefixes/keys (the code is length-uniform beyond the last byte); histories (one-step law + induction on paper)",
